@@ -87,12 +87,32 @@ def load_known(pid):
     return [k for k in json.loads(KNOWN_FILE.read_text()) if k.get('property') == pid]
 
 
+class CaseTimeout(Exception):
+    pass
+
+
+CASE_TIMEOUT_S = 300
+
+
 def safe_impl(suite, case):
+    import signal
+    import threading
+
+    def on_alarm(signum, frame):
+        raise CaseTimeout(f'the implementation did not answer within {CASE_TIMEOUT_S} s')
+    armed = threading.current_thread() is threading.main_thread()
+    if armed:
+        old = signal.signal(signal.SIGALRM, on_alarm)
+        signal.alarm(CASE_TIMEOUT_S)
     try:
         return suite.run_impl(case)
-    except Exception as e:  # an exception the driver did not anticipate is itself an observable
+    except Exception as e:  # an exception the driver did not anticipate (a hang included) is itself an observable
         return {'unexpected_exception': type(e).__name__, 'text': str(e)[:300],
                 'tb': traceback.format_exc()[-800:]}
+    finally:
+        if armed:
+            signal.alarm(0)
+            signal.signal(signal.SIGALRM, old)
 
 
 def write_replay(pid, payload):
